@@ -1,5 +1,5 @@
 """harness sets for the spline part of C01 / C02 / C09 / C17 (+ wrappers for C12 / C13)"""
-from contracts.splines import FAMILIES, spline_harness, unconstrained_harness, cdf_harnesses
+from contracts.splines import FAMILIES, spline_harness, unconstrained_harness, cdf_harnesses, QUADRATIC_TAILS_PARAM
 
 NOT_DECIDED_CUBIC_INVERSE = ("cubic_spline(inverse=True): the trigonometric three-root branch (atan2/cos/sin + argsort root selection) is outside "
                              "nonlinear real arithmetic; the cubic inverse is not under contract")
@@ -25,6 +25,8 @@ def spline_harnesses(props, tier, wrappers=True, directions=(False, True)):
                 hs.append(spline_harness(fam, K, inv, props))
     for inv in directions:
         hs.append(spline_harness(FAMILIES["rq"], 2, inv, props, tag=",ident", enable_identity_init=True))
+        for K in (1, 2, 3):
+            hs.append(spline_harness(QUADRATIC_TAILS_PARAM, K, inv, props))
     if wrappers:
         for name in FAMILIES:
             for K in ((2, 3) if tier == "quick" else (2, 3, 5)):
